@@ -105,19 +105,100 @@ func (x *Ctx) emitLayout(c *Config, sc *Scenario) {
 }
 
 func (x *Ctx) emitPkt(stream string, cfgName string, rt *Router, sc *Scenario) {
-	run := x.Run
-	if !run.Want() {
-		run.Skip()
+	if !x.Run.Want() {
+		x.Run.Skip()
 		return
 	}
 	raw, err := sc.Desc.Serialize()
 	if err != nil {
 		// not expressible: count it, keep the id stable
-		run.Tally("unserializable")
-		run.Skip()
+		x.Run.Tally("unserializable")
+		x.Run.Skip()
 		return
 	}
 	o, err := rt.Run(raw, sc.Ing)
+	x.emitObs(stream, cfgName, rt, sc, raw, o, err)
+}
+
+// EmitSeq processes the scenarios back to back on ONE reused packet processor (as
+// runProcessor does with the packets of a queue) and registers each of them as an ordinary
+// packet case: the model is stateless, so the result for a packet must be the single-packet
+// verdict whatever the processor saw before. The whole sequence is always executed (a case
+// selected with -only needs its predecessors).
+func (x *Ctx) EmitSeq(stream string, cfgName string, rt *Router, scs []*Scenario) {
+	proc := rt.DP.VerifNewProcessor()
+	for _, sc := range scs {
+		raw, err := sc.Desc.Serialize()
+		var o Obs
+		if err == nil {
+			o, err = rt.RunOn(proc, raw, sc.Ing)
+		} else {
+			raw = nil
+		}
+		if !x.Run.Want() {
+			x.Run.Skip()
+		} else if raw == nil {
+			x.Run.Tally("unserializable")
+			x.Run.Skip()
+		} else {
+			x.emitObs(stream, cfgName, rt, sc, raw, o, err)
+		}
+		if x.X {
+			x.emitLayout(rt.Cfg, sc)
+		}
+	}
+}
+
+// TamperMAC returns a copy of the scenario whose current hop field has MAC bit `bit` (0 = most
+// significant bit of the first byte .. 47) flipped; nothing else changes.
+func TamperMAC(sc *Scenario, bit int) *Scenario {
+	t := sc.Clone()
+	hf := int(t.Desc.CurrHF)
+	if hf >= len(t.Desc.Hops) {
+		hf = len(t.Desc.Hops) - 1
+	}
+	t.Desc.Hops[hf].Mac[(bit/8)%6] ^= 0x80 >> (bit % 8)
+	t.Mut = fmt.Sprintf("mac-bit-%d", bit%48)
+	return t
+}
+
+// Pairs emits, for n valid-by-construction packets, the sequences [valid; tampered],
+// [valid; valid; tampered] and [tampered; valid] (tampered = one MAC bit of the current hop
+// field flipped, bits 0..47 in rotation), each sequence on one reused processor.
+func (x *Ctx) Pairs(stream string, nCfg, n int, kinds []string) {
+	if len(kinds) == 0 {
+		kinds = Kinds
+	}
+	type cf struct {
+		name string
+		rt   *Router
+	}
+	var cfgs []cf
+	for i := 0; i < nCfg; i++ {
+		c := GenConfig(x.Rng.Fork(uint64(5000 + i)))
+		name, rt := x.AddConfig(c)
+		cfgs = append(cfgs, cf{name, rt})
+	}
+	for i := 0; i < n; i++ {
+		r := x.Rng.Fork(uint64(i))
+		c := cfgs[i%nCfg]
+		sc := GenValid(r, c.rt.Cfg, x.Now, kinds[i%len(kinds)])
+		sc.Mut = "pair:valid"
+		t := TamperMAC(sc, i%48)
+		t.Mut = "pair:" + t.Mut
+		switch i % 3 {
+		case 0:
+			x.EmitSeq(stream, c.name, c.rt, []*Scenario{sc, t})
+		case 1:
+			x.EmitSeq(stream, c.name, c.rt, []*Scenario{sc, sc.Clone(), t})
+		default:
+			x.EmitSeq(stream, c.name, c.rt, []*Scenario{t, sc})
+		}
+	}
+}
+
+func (x *Ctx) emitObs(stream string, cfgName string, rt *Router, sc *Scenario, raw []byte, o Obs, err error) {
+	run := x.Run
 	if err != nil {
 		run.Tally("unrunnable")
 		run.Skip()
